@@ -59,6 +59,46 @@ pop() / clear() / slice deletion mis-time has_dupes) - counted in the
 evidence (dup_mutations_outside_bound_that_disagree), reported, no verdict.
 Negative-start slice assignment is C38's (known finding there).
 
+Transient duplicates (a list that is duplicate-free before and after a
+statement which is a *sequence* of item assignments, between which one member
+is listed twice): the tuple swap ``l[i], l[j] = l[j], l[i]`` (op ``swap``) and
+extended-slice assignment of a permutation (``l[::-1] = [...]``, thorough also
+``l[0::2] = [...]``) are ordinary members of the list alphabet of the
+many-to-many list mappings (both sides, every mode, full oracle incl. flush +
+reload) - the remove handler sees the duplicate there.  Genuine defect found
+by this (lazy modes): with the far side *unloaded* the backref events of such
+a statement are queued in a _PendingCollection whose added / deleted items are
+sets and cannot count (append, append, remove nets to nothing): append + swap
+-> the far side loads without the member; append + swap + remove -> the flush
+raises StaleDataError.  Every failure below a history in which a
+transient-duplicate statement was performed on a many-to-many list while the
+other side of one of its members was unloaded (flag carried on the model,
+``tdup_queued``) and whose form is a disagreement / difference or a
+StaleDataError at flush is reported under one of the two canonical signatures
+PENDSET_SIG_A / PENDSET_SIG_B; any other failure keeps its own signature.
+For one-to-many lists
+they are explored in memory in the ``dups`` shards (bases [c1,c2] and
+[c1,c2,c3], every swap / reversal / step-2 permutation, optionally followed by
+a second one or a removal by value / index).  They are NOT in the one-to-many
+persistent alphabet: there a second genuine defect shows - the remove event of
+the transient duplicate clears the member's hasparent flag although it stays
+in the list (CollectionAttributeImpl.fire_remove_event), and a member moved
+over from another parent and then swapped can be orphaned by the flush
+(whether the foreign key is then nulled depends on the order in which the unit
+of work iterates a set of states, so the flush outcome is kept out of the
+verdict).  The deterministic root cause is detected by swap_hasparent_probe in
+the dups shards and reported under the canonical signature O2M_HASPARENT_SIG
+(proposed fix: proposed_fixes/c37_fire_remove_event_transient_duplicate.diff).
+Duplicates in many-to-many lists (``dups_m2m`` shards): the two sides mirror
+each other as multisets (p1.cs = [c1,c1] <-> c1.ps = [p1,p1]); from the four
+duplicate bases, produced by assignment or by repeated append(), every history
+(quick 2, thorough 3 ops) of single-slot mutations of p1.cs (remove / del /
+slice del / item and slice assignment of a new member / every tuple swap / pop
+/ in-place reversal) and removals from the far side (c.ps.remove(p1)) is
+executed on transient objects; after every op p1.cs equals the plain list and
+c in p.cs <=> p in c.ps for every pair (removing one of two occurrences keeps
+the far side, removing the last clears it).
+
 Signatures: "<class> <kind>/<coll>: {reference relation of the objects
 involved} <op> -> <first fact>", objects renamed by first appearance; the
 configurations (mapping style / mode) in which the same minimal case fails are
@@ -78,6 +118,12 @@ Mutations caught (each in a private copy, VF_REPO=/tmp/wt-orm3):
     (pop never clears) -> "pA.cs.remove(cA) -> pA in cA's side pA"
  M7 attributes.py _CollectionAttributeImpl.append: pending append on an
     unloaded collection lost -> lazy_naf "cA.p = pB -> pB's side is []"
+ M8 attributes.py emit_backref_from_collection_remove_event: the has_dupes()
+    test also applied when the far side is a collection (seeded C37-b) ->
+    m2m/list "pA.cs[0], pA.cs[1] = pA.cs[1], pA.cs[0] -> C side of cB is
+    [pA,pA], reference [pA]" (transient, pending, loaded), "pA.cs[::-1] = [cA,cB] ->
+    ..." and dups_m2m "p1.cs = [c1,c1]; remove c1; pop -> c1 not in p1.cs []
+    but c1.ps is [p1]"
 """
 import gc
 import itertools
@@ -90,7 +136,7 @@ from sqlalchemy.orm.attributes import NO_VALUE
 from sqlalchemy.orm.base import LoaderCallableStatus
 
 from ..engines import hist
-from ..models.sessref3 import coll_apply
+from ..models.sessref3 import coll_apply as _coll_apply
 from ..models.sessref3 import has_dups
 from ..models.sessref3 import inplace_apply
 from ..models.sessref3 import INPLACE
@@ -100,6 +146,53 @@ from ..models.sessref3 import render
 from ..models.sessref3 import UNLOADED
 from ..worlds.ormworld3 import world
 
+
+def coll_apply(cont, m, conv=lambda n: n, choice=None):
+    """sessref3.coll_apply plus the tuple-swap statement ``l[i], l[j] = l[j],
+    l[i]``: two item assignments, between which the list holds one member
+    twice (same code for the name list of the model and the real instrumented
+    list; the right-hand side is read before anything is assigned, as Python
+    does)"""
+    if m[0] == "swap":
+        i, j = m[1], m[2]
+        cont[i], cont[j] = cont[j], cont[i]
+        return None
+    return _coll_apply(cont, m, conv, choice)
+
+
+class RelModelX(RelModel):
+    """RelModel whose list side also understands ``swap``"""
+
+    def primary(self, op, choice=None):
+        if op[0] == "coll" and op[3][0] == "swap":
+            cur = list(self.val[op[1]][op[2]])
+            return cur, coll_apply(cur, op[3])
+        return RelModel.primary(self, op, choice)
+
+
+def is_tdup_op(op):
+    """a statement that is a sequence of item assignments (tuple swap,
+    extended-slice assignment of several values)"""
+    if op[0] != "coll":
+        return False
+    m = op[3]
+    return m[0] == "swap" or (m[0] == "setslice" and m[1][2] not in (None, 1) and len(m[2]) > 1)
+
+
+# canonical, history-independent signatures of the two genuine defects of the
+# transient-duplicate family (no " @ config" part: finish() leaves them as is)
+O2M_HASPARENT_SIG = (
+    "o2m list: a statement with a transient duplicate (tuple swap / permutation slice assignment) leaves a member of "
+    "the collection with its hasparent flag off (a later flush may orphan it)"
+)
+_PENDSET = (
+    "m2m list, far side unloaded: queued backref events of a transient duplicate (tuple swap / permutation slice "
+    "assignment) are kept in sets (append, append, remove nets to nothing): "
+)
+PENDSET_SIG_A = _PENDSET + "the two sides disagree after load"
+PENDSET_SIG_B = _PENDSET + "the flush raises StaleDataError"
+PENDSET_FORM_A = ("disagree", "differs", "reload-disagree", "reload-differs")
+
 ID = "C37"
 LEVEL = "model_checking"
 META = dict(
@@ -108,7 +201,8 @@ META = dict(
     design_ref="DESIGN.md §5 C37",
     level_text="Every history of in-memory mutations over the full mutator alphabet of list / set / dict collections and "
     "scalar references is replayed on fresh real mapped objects for 12 bidirectional mappings (O2M list/set/dict, O2O, "
-    "M2M list/set; back_populates and backref) in 6 object modes (transient, pending, persistent-loaded, persistent-expired "
+    "M2M list/set; back_populates and backref; the M2M list alphabet includes statements that list a member twice only "
+    "transiently: tuple swap and extended-slice permutation) in 6 object modes (transient, pending, persistent-loaded, persistent-expired "
     "with lazy loaders and autoflush, the same with active_history, the same with autoflush off). After every operation the agreement invariant is "
     "evaluated on the real objects, both sides are compared with a plain-Python relation model, and for every new "
     "canonical state all sides are lazily read, then flushed, committed and reloaded from SQLite and compared again. "
@@ -116,7 +210,9 @@ META = dict(
     "complete for the stated depth (and, where the fixpoint is reached, for every depth).",
     level_note="Trusted: the 150-line relation model (sessref3.RelModel) and the canonical-state function. Persistent "
     "start states are manufactured with make_transient_to_detached + set_committed_value (documented APIs) instead of "
-    "a query. Universe of 2 parents x 2-3 children; duplicates in a list only in the dups shards; SQLite only.",
+    "a query. Universe of 2 parents x 2-3 children; lists that hold a member twice at a statement boundary only in the dups "
+    "(one-to-many) and dups_m2m (many-to-many) shards, on transient objects; transient duplicates inside one statement: "
+    "many-to-many in every mode, one-to-many in memory only plus the hasparent-flag detector (the address-dependent flush outcome is not in the verdict); SQLite only.",
     rule="case = (mapping, mode, canonical state, op); non-trivial = the op had to change the far side (a backref had to "
     "fire); outcomes = distinct (op kind, resulting relation, error class)",
     assumptions=[
@@ -125,8 +221,8 @@ META = dict(
         "a stale holder after replacing an unloaded scalar reference without active_history is documented behaviour",
     ],
     bounds=dict(
-        quick="12 mappings x 6 modes; 2x2 objects; reduced alphabet (one op per argument shape); depth 3 (transient, loaded), 2 (pending, lazy modes), 4 (one-to-one); dups shards",
-        thorough="12 mappings x 6 modes; o2m 2x3 objects and full alphabet in the in-memory and loaded modes (depth 4), 2x2 objects and reduced alphabet in the lazy modes (depth 3); one-to-one depth 6; dups shards",
+        quick="12 mappings x 6 modes; 2x2 objects; reduced alphabet (one op per argument shape); depth 3 (transient, loaded), 2 (pending, lazy modes), 4 (one-to-one); m2m list: + swap(0,1) on both sides, [::-1]= on the parent side; dups shards (o2m: + transient-duplicate statements on [c1,c2], [c1,c2,c3]); dups_m2m shards: 4 duplicate bases x 2 ways to build them, all histories of 2 ops",
+        thorough="12 mappings x 6 modes; o2m 2x3 objects and full alphabet in the in-memory and loaded modes (depth 4), 2x2 objects and reduced alphabet in the lazy modes (depth 3); one-to-one depth 6; m2m list: + swap, [::-1]= of every 2-permutation on both sides (lazy modes: the quick alphabet); dups shards; dups_m2m shards: all histories of 3 ops",
     ),
 )
 
@@ -171,7 +267,7 @@ def shapes(kind, coll):
 # ------------------------------------------------------------------ op alphabet
 
 
-def coll_ops(shape, side, owner, owners, elems, tier, basic=False):
+def coll_ops(shape, side, owner, owners, elems, tier, basic=False, tdup=False):
     """every mutating method of the collection type with every argument over
     ``elems``.  thorough: all of them; quick: near-duplicates (second index,
     mirrored pairs) are left out; basic (the mirrored side of many-to-many in
@@ -197,6 +293,15 @@ def coll_ops(shape, side, owner, owners, elems, tier, basic=False):
                 C("setslice", [0, None, 2], [e])
         C("pop")
         C("clear")
+        # statements that are a *sequence* of item assignments, between which
+        # one member is listed twice although the list is duplicate-free
+        # before and after: the tuple swap and extended-slice assignment of a
+        # permutation (the remove handler then sees the duplicate)
+        if tdup:
+            C("swap", 0, 1)
+            if full and len(elems) >= 3:
+                C("swap", 0, -1)
+                C("swap", 1, 2)
         if not basic:
             C("pop", 0)
             C("delitem", 0)
@@ -210,8 +315,15 @@ def coll_ops(shape, side, owner, owners, elems, tier, basic=False):
             if not basic:
                 C("extend", pr)
                 C("setslice", [0, None, None], pr)
+                if tdup:
+                    C("setslice", [None, None, -1], pr)
             if full:
                 C("setslice", [0, 1, None], pr)
+                if tdup and len(elems) >= 3:
+                    C("setslice", [0, None, 2], pr)
+        if tdup and full and len(elems) >= 3:
+            for pr in itertools.permutations(elems, 3):
+                C("setslice", [None, None, -1], list(pr))
         vals = [[]] + [[e] for e in elems] + (perms if full else combs)
         if full and len(elems) >= 3:
             vals += [list(p) for p in itertools.permutations(elems, 3)][:2]
@@ -276,7 +388,9 @@ def alphabet(kind, coll, tier, mode):
                     ops.append(["sset", side, o, t])
                 ops.append(["sdel", side, o])
             else:
-                ops += coll_ops(shape, side, o, owners, elems, tier, basic=(kind == "m2m" and side == "C" and tier == "quick"))
+                ops += coll_ops(
+                    shape, side, o, owners, elems, tier, basic=(kind == "m2m" and side == "C" and tier == "quick"), tdup=(kind == "m2m")
+                )
     if mode in LAZY:
         for side, owners in (("P", ps), ("C", cs)):
             for o in owners:
@@ -308,6 +422,8 @@ def op_text(w, op):
         return "del %s[%s]" % (a, ":".join("" if x is None else str(x) for x in m[1]))
     if m[0] == "setitem":
         return "%s[%r] = %s" % (a, m[1], m[2])
+    if m[0] == "swap":
+        return "%s[%d], %s[%d] = %s[%d], %s[%d]" % (a, m[1], a, m[2], a, m[2], a, m[1])
     if m[0] == "delitem":
         return "del %s[%r]" % (a, m[1])
     return "%s.%s(%s)" % (a, m[0], ", ".join(render(x) if isinstance(x, (list, dict)) else str(x) for x in m[1:]))
@@ -430,7 +546,7 @@ def initial_model(cfg, mode, tier):
     kind, coll, style = cfg
     pn, cn = universe(kind, tier, mode)
     sp, sc = shapes(kind, coll)
-    m = RelModel(sp, sc, pn, cn)
+    m = RelModelX(sp, sc, pn, cn)
     if mode in ("loaded",) + LAZY:
         for p, c in initial_pairs(kind):
             m._link("P", p, c)
@@ -534,7 +650,27 @@ def make_step(rec, cfg, mode, tier):
     in_memory = mode in ("transient", "pending")
     cfgname = "%s/%s/%s/%s" % (kind, coll or "-", style, mode)
 
+    # the cause of the known set-based pending collection defect is in the
+    # history: a transient-duplicate statement was performed on a many-to-many
+    # list while the other side of one of the list's members was unloaded (its
+    # backref events went into a _PendingCollection).  Carried along the
+    # history on the model object (``tdup_queued``); cur["tq"] = the value for
+    # the step being executed.
+    cur = {"tq": False}
+
     def fail(category, pre, op, problem, hist_, extra_kind=""):
+        if category in PENDSET_FORM_A or (category == "flush" and "StaleDataError" in problem):
+            if cur["tq"]:
+                form = "A" if category in PENDSET_FORM_A else "B"
+                case = dict(cfg=list(cfg), mode=mode, tier=tier, history=[list(h) for h in hist_], op=op)
+                rec.count("pending_set_defect_cases_form_" + form)
+                rec.violation(
+                    PENDSET_SIG_A if form == "A" else PENDSET_SIG_B,
+                    "[%s] history: %s; then %s -> %s" % (cfgname, "; ".join(op_text(w, h) for h in hist_) or "(initial)", op_text(w, op), problem),
+                    case,
+                    kind="pendset" + form,
+                )
+                return
         ot = op_text(w, op)
         body = "%s -> %s" % (ot, problem)
         st = restricted_state(w, pre, body)  # pre = the model's relation before the op
@@ -555,6 +691,7 @@ def make_step(rec, cfg, mode, tier):
         pre = ms.view()
         side, owner = op[1], op[2]
         o_side = RelModel.other(side)
+        cur["tq"] = getattr(ms, "tdup_queued", False)
         if not in_memory and op[0] in ("coll", "assign_from"):
             # a collection operation first loads the collection (database
             # order): take the element order from that load, as the op does
@@ -581,6 +718,8 @@ def make_step(rec, cfg, mode, tier):
                             return None
                     except PY_ERRORS:
                         pass
+        if not cur["tq"] and kind == "m2m" and coll == "list" and mode in LAZY and is_tdup_op(op):
+            cur["tq"] = any(pre_impl[o_side].get(x) == UNLOADED for x in members(ms.val[side][owner]))
         exc = ret = None
         try:
             ret = apply_impl(ctx, op)
@@ -590,6 +729,7 @@ def make_step(rec, cfg, mode, tier):
             fail("raised", pre, op, "raised %s: %s" % (type(e).__name__, str(e)[:80]), hist_)
             return None
         m2 = ms.copy()
+        m2.tdup_queued = cur["tq"]
         choice = None
         if op[0] == "coll" and op[3][0] in ("pop", "popitem") and exc is None:
             if op[3][0] == "popitem":
@@ -798,6 +938,8 @@ def enabled_factory(cfg, mode, tier):
                 try:
                     new, _ = ms.primary(op)
                 except PY_ERRORS:
+                    if op[0] == "coll" and op[3][0] == "swap":
+                        continue  # fails reading l[j], before anything is assigned: not a mutation
                     out.append(op)
                     continue
                 if has_dups(new):
@@ -832,6 +974,8 @@ def shards(tier, seed):
             out.append([list(cfg), mode])
     for style in ("bp", "backref"):
         out.append(["dups", style])
+    for style in ("bp", "backref"):
+        out.append(["dups_m2m", style])
     return out
 
 
@@ -900,6 +1044,29 @@ def run_dups(style, tier, rec):
                         dict(dups=True, style=style, base=base, m=m, second=second),
                         kind=("dups", m[0], second is not None),
                     )
+    # transient duplicates: the list is duplicate-free before and after the
+    # statement, which is a sequence of item assignments (tuple swap,
+    # extended-slice assignment of a permutation); optionally followed by a
+    # removal or another such statement.  In-memory agreement after each.
+    for base in TDUP_BASES:
+        for m in tdup_ops(base):
+            after = _after(base, m)
+            for second in [None] + tdup_ops(after) + [["remove", n] for n in after] + [["delitem", i] for i in range(len(after))]:
+                rec.transition(1 if second is None else 2)
+                rec.trace()
+                rec.case((style, "tdup", tuple(base), repr(m), repr(second)), nontrivial=True)
+                problem = dup_case(style, base, m, second, rec)
+                rec.state(("tdups", tuple(base), repr(m), repr(second)))
+                rec.outcome(("tdups", tuple(base), m[0], second and second[0], problem is None))
+                if problem:
+                    t = "p1.cs = %s; p1.cs: %s%s" % (render(base), m, ("; then %s" % (second,)) if second else "")
+                    rec.violation(
+                        "dups o2m/list: %s -> %s @ o2m/list/%s/dups" % (t, problem, style),
+                        problem,
+                        dict(dups=True, style=style, base=base, m=m, second=second),
+                        kind=("tdups", m[0], second is not None),
+                    )
+    swap_hasparent_probe(style, rec)
     # outside the bound (counted, no verdict): what the other mutations do
     # while a child is listed twice
     w = world("o2m", "list", style)
@@ -920,9 +1087,172 @@ def _after(base, m):
     return names
 
 
+TDUP_BASES = (["c1", "c2"], ["c1", "c2", "c3"])
+
+
+def tdup_ops(names):
+    ops = [["swap", i, j] for i in range(len(names)) for j in range(i + 1, len(names))]
+    if len(names) > 1:
+        ops.append(["setslice", [None, None, -1], list(names)])  # in-place reversal
+    if len(names) == 3:
+        ops.append(["setslice", [0, None, 2], [names[2], names[0]]])
+    return ops
+
+
+# One-to-many, persistent objects: the remove event of the transient duplicate
+# clears the member's hasparent flag (CollectionAttributeImpl.fire_remove_event
+# -> sethasparent(False)) although the member stays in the list.  When the
+# member had been moved over from another parent in the same flush, that
+# parent's "deleted" processing may then set its foreign key to NULL (it does
+# when the unit of work happens to process the new parent first - the order
+# of a set of states): in memory the two sides agree, after flush + reload the
+# member is gone from both.  Reproduced stand-alone and reported.  The two
+# sides never disagree with each other and the flush outcome depends on that
+# set order, so what is measured here (evidence counter, no verdict) is the
+# deterministic root cause: a member of the list whose hasparent flag is off.
+
+
+def swap_hasparent_probe(style, rec, report=True):
+    from sqlalchemy.orm.attributes import instance_state
+
+    w = world("o2m", "list", style)
+    n = 0
+    for m in tdup_ops(["c1", "c2"]):
+        objs = {x: w.new(x) for x in ("p1", "c1", "c2")}
+        p1 = objs["p1"]
+        p1.cs = [objs["c1"], objs["c2"]]
+        coll_apply(p1.cs, m, objs.__getitem__)
+        if not all(w.P.cs.impl.hasparent(instance_state(c)) for c in p1.cs):
+            n += 1
+    rec.count("o2m_transient_duplicate_statements_leaving_a_member_without_hasparent_flag", n)
+    if n and report:
+        rec.violation(
+            O2M_HASPARENT_SIG,
+            "p1.cs = [c1,c2] (transient objects, %s); after p1.cs[0], p1.cs[1] = p1.cs[1], p1.cs[0] or p1.cs[::-1] = [c1,c2] "
+            "a member of p1.cs has P.cs.impl.hasparent(state) False (%d of %d statements)" % (style, n, len(tdup_ops(["c1", "c2"]))),
+            dict(dups="o2m_hasparent", style=style),
+            kind="o2m_hasparent",
+        )
+    return n
+
+
+# -- many-to-many: a list that names a member twice is mirrored by a far side
+# that names the owner twice (every append appends, every remove removes one)
+
+M2M_DUP_STARTS = ("assign", "appends")
+
+
+def m2m_dup_ops(names):
+    """every single-slot mutation of p1.cs (by value, by index, by slice, item
+    and slice assignment, tuple swap, pop) and the removal from the far side"""
+    ops = []
+    for n in dict.fromkeys(names):
+        ops.append(["remove", n])
+        ops.append(["far_remove", n])
+    for i in range(len(names)):
+        ops.append(["delitem", i])
+        ops.append(["delslice", [i, i + 1, None]])
+        ops.append(["setitem", i, "c3"])
+        ops.append(["setslice", [i, i + 1, None], ["c3"]])
+        for j in range(i + 1, len(names)):
+            ops.append(["swap", i, j])
+    if names:
+        ops.append(["pop"])
+    if len(names) > 1:
+        ops.append(["setslice", [None, None, -1], list(names)])  # in-place reversal
+    return ops
+
+
+def m2m_dup_case(style, start, base, hist_):
+    """returns (problem text or None, names after the history)"""
+    w = world("m2m", "list", style)
+    objs = {n: w.new(n) for n in ("p1", "p2", "c1", "c2", "c3")}
+    p1 = objs["p1"]
+    if start == "assign":
+        p1.cs = [objs[n] for n in base]
+    else:
+        for n in base:
+            p1.cs.append(objs[n])
+    names = list(base)
+
+    def facts():
+        got = [o.name for o in p1.cs]
+        if got != names:
+            return "p1.cs is %s, plain list gives %s" % (render(got), render(names))
+        for p in ("p1", "p2"):
+            for n in ("c1", "c2", "c3"):
+                inside = any(o is objs[n] for o in objs[p].cs)
+                back = any(o is objs[p] for o in objs[n].ps)
+                if inside != back:
+                    return "%s %s %s.cs %s but %s.ps is %s" % (
+                        n, "in" if inside else "not in", p, render([o.name for o in objs[p].cs]), n, render([o.name for o in objs[n].ps])
+                    )
+        return None
+
+    problem = facts()
+    if problem:
+        return "after the start: " + problem, names
+    for m in hist_:
+        if m[0] == "far_remove":
+            objs[m[1]].ps.remove(p1)
+            names.remove(m[1])
+        else:
+            coll_apply(p1.cs, m, objs.__getitem__)
+            coll_apply(names, m)
+        problem = facts()
+        if problem:
+            return problem, names
+    return None, names
+
+
+def run_dups_m2m(style, tier, rec):
+    depth = 2 if tier == "quick" else 3
+    for start in M2M_DUP_STARTS:
+        for base in DUP_BASES:
+            frontier = [[]]
+            for d in range(1, depth + 1):
+                nxt = []
+                for h in frontier:
+                    names = list(base)
+                    for m in h:
+                        if m[0] == "far_remove":
+                            names.remove(m[1])
+                        else:
+                            coll_apply(names, m)
+                    for m in m2m_dup_ops(names):
+                        hh = h + [m]
+                        rec.transition()
+                        rec.trace()
+                        key = (style, start, tuple(base), repr(hh))
+                        problem, after = m2m_dup_case(style, start, base, hh)
+                        # non-trivial: the op was performed while a member was listed twice
+                        rec.case(key, nontrivial=has_dups(names))
+                        rec.outcome(("dups_m2m", m[0], tuple(after), problem is None))
+                        if problem:
+                            t = "%s; %s" % (
+                                "p1.cs = %s" % render(base) if start == "assign" else "p1.cs.append() x %s" % render(base),
+                                "; ".join(str(x) for x in hh),
+                            )
+                            rec.violation(
+                                "dups m2m/list: %s -> %s @ m2m/list/%s/dups" % (t, problem, style),
+                                problem,
+                                dict(dups="m2m", style=style, start=start, base=base, history=hh),
+                                kind=("dups_m2m", m[0], d),
+                            )
+                            continue
+                        # no dedupe: the far side's order is part of the state,
+                        # every history up to the depth is executed
+                        rec.state(("dups_m2m", start, tuple(base), repr(hh)))
+                        nxt.append(hh)
+                frontier = nxt
+
+
 def run_shard(shard, tier, rec):
     if shard[0] == "dups":
         run_dups(shard[1], tier, rec)
+        return
+    if shard[0] == "dups_m2m":
+        run_dups_m2m(shard[1], tier, rec)
         return
     cfg, mode = tuple(shard[0]), shard[1]
     gc.disable()
@@ -966,6 +1296,11 @@ def replay(case):
     from ..core import Rec, StopShard
 
     rec = Rec(ID)
+    if case.get("dups") == "o2m_hasparent":
+        return [(O2M_HASPARENT_SIG, "hasparent flag off")] if swap_hasparent_probe(case["style"], rec, report=False) else []
+    if case.get("dups") == "m2m":
+        problem, _ = m2m_dup_case(case["style"], case["start"], case["base"], case["history"])
+        return [("dups m2m/list: %s" % problem, problem)] if problem else []
     if case.get("dups"):
         problem = dup_case(case["style"], case["base"], case["m"], case["second"], rec)
         return [("dups o2m/list: %s" % problem, problem)] if problem else []
